@@ -126,3 +126,55 @@ def listify(x):
     if isinstance(x, dict):
         return {k: listify(v) for k, v in x.items()}
     return x
+
+
+def interfere(case):
+    """Create a few OTHER contexts (other object / property counts, partly equal labels) and ask them everything.
+
+    Nothing is checked here.  The point is the history: whatever the library memoises while answering these
+    queries (per class, per module, per label tuple, per integer value of a bitset) must not influence the
+    answers of the objects a check verifies before and after this call.
+    """
+    import concepts
+    n, m = len(case['o']), len(case['p'])
+    rows = case['r']
+    variants = []
+    # one more object (extra row = complement pattern), same properties
+    variants.append((case['o'] + ['extra-o'], case['p'], rows + [((1 << m) - 1) ^ (rows[0] if rows else 0)]))
+    # one property fewer / one more
+    if m > 1:
+        variants.append((case['o'], case['p'][:-1], [r & ((1 << (m - 1)) - 1) for r in rows]))
+    variants.append((case['o'], case['p'] + ['extra-p'], [r | ((i & 1) << m) for i, r in enumerate(rows)]))
+    # fewer objects
+    if n > 1:
+        variants.append((case['o'][1:], case['p'], rows[1:]))
+    for o, p, rs in variants:
+        try:
+            ctx_ = concepts.Context(o, p, gen.bools_of({'o': o, 'p': p, 'r': rs}))
+            lat = ctx_.lattice
+            members = list(lat)[:12]
+            for x in members:
+                list(x.upset()), list(x.downset()), x.minimal(), x.atoms
+                if len(x.intent) <= 8:
+                    list(x.attributes())
+                ctx_.neighbors(x.extent)
+                if x.extent:
+                    lat[x.extent]
+                lat(x.intent)
+                for y in members:
+                    x | y, x & y, x <= y, x < y
+                    x.incompatible_with(y), x.complement_of(y), x.subcontrary_with(y), x.orthogonal_to(y)
+                    lat.join([x, y]), lat.meet([x, y])
+                    list(lat.upset_union([x, y])), list(lat.downset_union([x, y]))
+            ctx_.relations(), str(ctx_.relations(include_unary=True)), ctx_.tostring(), ctx_.crc32()
+            d = ctx_.todict()
+            concepts.Context.fromdict(d, raw=True).lattice
+            lat.graphviz()
+            for name in o[:3]:
+                ctx_.intension([name]), ctx_[[name]]
+            for name in p[:3]:
+                ctx_.extension([name]), ctx_[[name]]
+            from concepts import algorithms
+            list(algorithms.fast_generate_from(ctx_)), list(algorithms.fcbo_dual(ctx_))
+        except Exception:  # noqa: BLE001 - interference only; the property checks themselves judge the library
+            pass
